@@ -1,3 +1,4 @@
+import Firebolt.Properties.TransBase
 import Firebolt.Model.Recovery
 import Firebolt.Generated.Source
 import Firebolt.Expected.Source
@@ -248,6 +249,59 @@ theorem source_rcShutdown : GeneratedSrc.rcShutdown = ExpectedSrc.rcShutdown := 
 
 /-! ### influence closure: the pinned functions, and every function of the repository that writes a struct field or package
 variable they read, are unchanged (digests regenerated from /repo on every run; a difference names the functions) -/
+/-! ### The code itself, translated (`Generated/Trans.lean`, rewritten from /repo on every run by extractor/translate.go)
+
+The `translated_*` theorems are about MiniGo terms the translator produced from the current Go source: for every
+environment the translated fragment does what the hand-written model function says.  They are semantic obligations —
+a rewrite that preserves the behaviour keeps them provable, a changed comparison, bound or argument does not. -/
+section Translated
+open Firebolt.MiniGo Firebolt.TransBase
+
+/-- recoverSingleEvent, translated from the source: for every record the calls it makes are those of the decision `rdec` -/
+theorem translated_recoverSingleEvent (σ : Env)
+    (ho : 0 ≤ σ "e.TopicPartition.Offset" ∧ σ "e.TopicPartition.Offset" < 2^63)
+    (ht : 0 ≤ σ "recoveryState.toOffset" ∧ σ "recoveryState.toOffset" < 2^63) :
+    let p := σ "e.TopicPartition.Partition"
+    let o := σ "e.TopicPartition.Offset"
+    let t := σ "recoveryState.toOffset"
+    obs Trans.recoverSingleEvent σ =
+      match rdec (σ "lookup rc.activePartitionMap#1" != 0) (σ "recoveryState.fromOffset") t o (σ "rc.updateRequestEvery") with
+      | .ignore => ⟨rsePre σ, some [], false⟩
+      | .complete => ⟨rsePre σ ++ [("rc.tracker.MarkRecoveryComplete", [p, t]), ("rc.RefreshAssignments", [])], some [], false⟩
+      | .emit u => ⟨rsePre σ ++ [rseWait σ,
+                      ("rc.metrics.RecoveryEvents.WithLabelValues(strconv.Itoa(int(e.TopicPartition.Partition))).Inc", []),
+                      rseSend σ] ++
+                    (if u then [("rc.tracker.UpdateRecoveryRequest", [p, o, t])] else []), none, false⟩ := by
+  have hw : wrap64 (σ "recoveryState.toOffset" - σ "e.TopicPartition.Offset") = σ "recoveryState.toOffset" - σ "e.TopicPartition.Offset" := by
+    apply wrap64_id <;> omega
+  by_cases h1 : σ "lookup rc.activePartitionMap#1" = 0 <;>
+  by_cases h2 : σ "e.TopicPartition.Offset" < σ "recoveryState.fromOffset" <;>
+  by_cases h3 : σ "recoveryState.toOffset" - σ "e.TopicPartition.Offset" ≤ 0 <;>
+  by_cases h4 : σ "e.TopicPartition.Offset" % σ "rc.updateRequestEvery" = 0 <;>
+  by_cases h5 : σ "e.TopicPartition.Offset" < σ "recoveryState.toOffset" <;>
+  minigo_simp [Trans.recoverSingleEvent, rdec, rsePre, rseWait, rseSend, hw, h1, h2, h3, h4, h5, tmod_zero_iff] <;> (try omega)
+
+/-- the hand-written model takes the same decision: it emits exactly in the `emit` case, and then only the record itself, flagged -/
+theorem model_recover_rdec (s : St) (p o : Int) :
+    (recover s p o).2.emits =
+      match s.active.get? p with
+      | none => []
+      | some a => match rdec true a.fromO a.toO o s.updateEvery with
+        | .emit _ => [⟨p, o, true⟩]
+        | _ => [] := by
+  unfold recover
+  cases h : s.active.get? p with
+  | none => simp
+  | some a =>
+    simp only [rdec]
+    by_cases h1 : o < a.fromO <;> by_cases h2 : a.toO - o ≤ 0 <;> simp [h1, h2, refresh, Out.append]
+    · split <;> simp
+    · split <;> simp
+
+/-- non-vacuity: a record inside the window reaches the emitting branch -/
+example : rdec true 10 20 15 50 = .emit false := by decide
+end Translated
+
 theorem closure_unchanged : GeneratedClo.C07 = ExpectedClo.C07 := by rfl
 
 end Firebolt.C07
